@@ -225,12 +225,30 @@ func c03Compare(spec world.Spec, host string, req world.RequestSpec, u world.Use
 	}
 	// validity window
 	layout := spec.IdP.TimeFormat
-	if layout == "" {
+	configured := layout != ""
+	if !configured {
 		layout = "2006-01-02T15:04:05.999999Z"
 	}
 	prec := layoutPrecision(layout)
+	if !configured {
+		// no layout configured: any UTC xs:dateTime is in order; the precision is what the emitted string shows
+		prec = time.Second
+		if i := strings.IndexByte(a.IssueInstant, '.'); i >= 0 {
+			frac := strings.TrimRight(a.IssueInstant[i+1:], "Z")
+			prec = time.Second
+			for k := 0; k < len(frac) && k < 9; k++ {
+				prec /= 10
+			}
+			if prec < time.Microsecond {
+				prec = time.Nanosecond
+			}
+		}
+	}
 	parse := func(name, s string) (time.Time, bool) {
 		t, err := time.Parse(layout, s)
+		if err != nil && !configured {
+			t, err = time.Parse(time.RFC3339Nano, s)
+		}
 		if err != nil {
 			add("timestamp-layout", "%s %q does not parse with the configured layout %q", name, s, layout)
 			return t, false
